@@ -82,3 +82,41 @@ example : (⟨"broken", [Gen.Exc.builtins_RecursionError],
     : Pipeline Gen.Exc).ok Gen.sub Gen.parseErrors = false := by decide +kernel
 
 end EasyNet
+
+-- ==== BEGIN raw JSON framer ====
+namespace EasyNet
+
+/-- **C06, raw JSON framer: progress.**  For EVERY accumulated byte string (malformed soup included) and every way it was
+    received: whenever `generator.send` ends with a document (`done`) or a size error (`fail`), the remainder it hands back
+    is strictly shorter than everything it was sent — so a receive loop that skips errors terminates: the number of items
+    delivered never exceeds the number of bytes received, under any chunking. -/
+theorem C06_jraw_progress (limit : Nat) :
+    (∀ (s : JRaw.State) (b c : Bytes), JRaw.Inv limit s b →
+      (∀ d r, JRaw.feed limit s c = .done d r → r.length < (b ++ c).length) ∧
+      (∀ r, JRaw.feed limit s c = .fail r → r.length < (b ++ c).length)) ∧
+    (∀ chunks : List Bytes,
+      (Consumer.run JRaw.init (JRaw.feed limit) Consumer.new chunks).2.length ≤ chunks.flatten.length) := by
+  have L := JRaw.spec_prog limit
+  constructor
+  · intro s b c hinv
+    have h := (JRaw.feed_spec limit s b c hinv).1
+    constructor
+    · intro d r hf
+      rw [hf] at h
+      exact L.progress_done _ d r h.symm
+    · intro r hf
+      rw [hf] at h
+      exact L.progress_fail _ r h.symm
+  · intro chunks
+    have hsim := Consumer.run_ref (JRaw.refines limit) chunks Consumer.new [] (Or.inl ⟨rfl, rfl⟩)
+    rw [hsim.1]
+    have := (Prog.refRun_held L chunks [] (Or.inl rfl)).2
+    simp only [List.length_nil, Nat.zero_add] at this
+    omega
+
+/-- non-vacuity: soup starting with a closer; the generator ends at once and hands back the rest -/
+example : (JRaw.feed 8 JRaw.init [125, 93, 0, 34]).erase = .done [125] [93, 0, 34] ∧ JRaw.Inv 8 JRaw.init [] :=
+  ⟨by decide +kernel, JRaw.inv_init 8⟩
+
+end EasyNet
+-- ==== END raw JSON framer ====
